@@ -206,6 +206,34 @@ def seq_lrus(op):
     return [base + b"p:n%04d|" % i for i in idx]
 
 
+class InputFault(Exception):
+    """Raised by the caller's own input stream in the middle of a request (the argument of
+    add_pages / add_links may be any iterable, e.g. a generator reading a crawl result)."""
+
+
+def _with_input_fault(sut, call, items, k):
+    """Submit `items` as a one-shot stream that fails after `k` elements.  The fault must reach
+    the caller as it is; what the request had done by then is not specified by any listed
+    property, so the outcome names which of the admissible partial effects is observed:
+    nothing at all, the consumed elements' pages only, or the consumed elements in full."""
+
+    def stream():
+        for i, x in enumerate(items):
+            if i == k:
+                raise InputFault("input stream failed after %d elements" % k)
+            yield x
+
+    a0, b0 = sut.stores()
+    try:
+        call(stream())
+    except InputFault:
+        a1, b1 = sut.stores()
+        if a1 == a0 and b1 == b0:
+            return ("input_fault", "nothing")
+        return ("input_fault", "pages" if b1 == b0 else "full")
+    return ("input_fault", "swallowed")
+
+
 def exec_sut(sut, op, refs, model):
     """Run one write/restart op on the real index; returns canonical outcome.
     Only TraphException counts as a refusal; anything else propagates."""
@@ -216,6 +244,10 @@ def exec_sut(sut, op, refs, model):
     try:
         if k == "add_page":
             return canon_report(t.add_page(arg(op["lru"]), crawled=op.get("crawled", False)))
+        if k == "add_pages" and op.get("fault_at") is not None and op["fault_at"] < len(op["lrus"]):
+            return _with_input_fault(sut, lambda it: t.add_pages(it, crawled=op.get("crawled", False)), [arg(x) for x in op["lrus"]], op["fault_at"])
+        if k == "add_links" and op.get("fault_at") is not None and op["fault_at"] < len(op["links"]):
+            return _with_input_fault(sut, lambda it: t.add_links(it), [(arg(s), arg(x)) for s, x in op["links"]], op["fault_at"])
         if k == "add_pages":
             return canon_report(t.add_pages([arg(x) for x in op["lrus"]], crawled=op.get("crawled", False)))
         if k == "add_pages_seq":
@@ -291,6 +323,26 @@ def exec_model(model, op, refs, observed):
     try:
         if k == "add_page":
             return canon_model_report(model.add_page(dec(op["lru"]), op.get("crawled", False))), None
+        if k in ("add_pages", "add_links") and op.get("fault_at") is not None and op["fault_at"] < len(op["lrus" if k == "add_pages" else "links"]):
+            # existential over the admissible partial effects (see _with_input_fault)
+            mode = observed[1] if observed and observed[0] == "input_fault" else None
+            n = op["fault_at"]
+            if mode == "nothing":
+                return ("input_fault", "nothing"), None
+            if k == "add_pages":
+                model.add_pages([dec(x) for x in op["lrus"][:n]], op.get("crawled", False))
+                return ("input_fault", "pages" if mode == "pages" else "full"), None
+            pairs = [(dec(s), dec(x)) for s, x in op["links"][:n]]
+            if mode == "full":
+                model.add_links(pairs)
+                return ("input_fault", "full"), None
+            seen = []
+            for s_, x_ in pairs:
+                for l in (s_, x_):
+                    if l not in seen:
+                        seen.append(l)
+            model.add_pages(seen, False)
+            return ("input_fault", "pages"), None
         if k == "add_pages":
             return canon_model_report(model.add_pages([dec(x) for x in op["lrus"]], op.get("crawled", False))), None
         if k == "add_pages_seq":
